@@ -1,5 +1,7 @@
 import Secp.Proofs.ScalarEnc
 import Secp.Proofs.Fermat
+import Secp.Proofs.ScalarApiTiesArith
+import Secp.Proofs.ScalarApiTiesTests
 /-!
 # C06 — scalar arithmetic is exact arithmetic modulo the group order
 
@@ -101,8 +103,10 @@ calls into `internal/scalar`); the model the theorems above are about *is* the r
 theorem api_methods_tied (s : L4) (t : Option L4) (i : Nat) :
     GenScalarAPI.add s t = add s t ∧ GenScalarAPI.subtract s t = subtract s t ∧ GenScalarAPI.multiply s t = multiply s t ∧
     GenScalarAPI.square s = square s ∧ GenScalarAPI.set s t = set s t ∧ GenScalarAPI.setUInt64 i = setUInt64 i ∧
-    GenScalarAPI.zero = zero ∧ GenScalarAPI.one = one ∧ GenScalarAPI.minusOne = minusOne :=
-  ⟨ScalarApiTies.add_tie s t, ScalarApiTies.subtract_tie s t, ScalarApiTies.multiply_tie s t, rfl, ScalarApiTies.set_tie s t, rfl, rfl, rfl, rfl⟩
+    GenScalarAPI.zero = zero ∧ GenScalarAPI.one = one ∧ GenScalarAPI.minusOne = minusOne ∧
+    GenScalarAPI.isZero s = isZero s ∧ GenScalarAPI.isOne s = isOne s :=
+  ⟨ScalarApiTies.add_tie s t, ScalarApiTies.subtract_tie s t, ScalarApiTies.multiply_tie s t, rfl, ScalarApiTies.set_tie s t, rfl, rfl, rfl, rfl,
+   rfl, rfl⟩
 
 example : sOk minusOne ∧ sOk one := ⟨minusOne_correct.1, sOne_ok⟩
 
